@@ -1858,3 +1858,36 @@ pub proof fn lemma_gfp_greatest(x: Sym, t: SymbolicBDD, rho: Rho, y: BDD, z: BDD
     let tr = choose|tr: Seq<BDD>| #[trigger] tr_tag(tr) && fp_trace(x, true, t, rho, tr) && tr[tr.len() - 1] == y && fp_step(x, t, rho, y, y);
     lemma_gfp_above(x, t, rho, tr, tr.len() - 1, z, z2);
 }
+
+// ================================================================ the table printers (C09 / C12, src/bin/rsbdd.rs)
+
+/// every variable the diagram tests has a column (< n) in the formula's free-variable table
+pub open spec fn cols_ok(b: BDD, p: ParsedFormula, n: int) -> bool {
+    forall|v: Sym| occurs(b, v) ==> (#[trigger] v.id) < p.raw2free@.len() && p.raw2free@[v.id as int] is Some && p.raw2free@[v.id as int]->0 < n
+}
+
+/// what main() must establish before printing (it is not verified, A15): the diagram tests only free variables of the
+/// formula that are in its variable list — then every node has a column inside the row vector
+pub proof fn lemma_cols_ok(p: ParsedFormula, r: BDD)
+    requires
+        table_ok(p.vars@, p.bdd, p.raw2free@, p.vars@.len() as int),
+        p.free_vars@ == free_prefix(p.vars@, p.bdd, p.vars@.len() as int),
+        forall|v: Sym| occurs(r, v) ==> free_in(p.bdd, v) && p.vars@.contains(v),
+    ensures cols_ok(r, p, p.free_vars@.len() as int)
+{
+    assert forall|v: Sym| occurs(r, v) implies (#[trigger] v.id) < p.raw2free@.len() && p.raw2free@[v.id as int] is Some
+        && p.raw2free@[v.id as int]->0 < p.free_vars@.len() by {
+        let k = choose|k: int| 0 <= k < p.vars@.len() && p.vars@[k] == v;
+        assert(p.vars@[k].id < p.raw2free@.len());
+        lemma_free_prefix_mono(p.vars@, p.bdd, k + 1, p.vars@.len() as int);
+        assert(free_prefix(p.vars@, p.bdd, k + 1).len() == free_prefix(p.vars@, p.bdd, k).len() + 1);
+    }
+}
+
+pub proof fn lemma_free_prefix_mono(vs: Seq<Sym>, f: SymbolicBDD, i: int, j: int)
+    requires 0 <= i <= j <= vs.len()
+    ensures free_prefix(vs, f, i).len() <= free_prefix(vs, f, j).len()
+    decreases j - i
+{
+    if i < j { lemma_free_prefix_mono(vs, f, i, j - 1); }
+}
